@@ -57,4 +57,14 @@ theorem fin_before_cancel :
     (calls_Close.idxOf "close") < (calls_Close.idxOf "g.sendPacket") ∧
     (calls_Close.idxOf "g.cancel") < (calls_Close.idxOf "g.wg.Wait") := by decide
 
+/-- **Close itself blocks only in waits that a timer ends**: the only select
+    without `default` in Close's body is the wait for the FIN attempt, which
+    also listens on the FIN timeout context; the FIN attempt itself runs in a
+    goroutine of its own (repair 818c5cb: the send function handed to the
+    connection need not return when its context expires) -/
+theorem fin_wait_bounded :
+    (restingSelects sel_Close).all (fun s => s.cases.contains "recv ctxc.Done()" && s.cases.contains "recv finDone") = true ∧
+    (restingSelects sel_Close).length = 1 ∧ go_Close.length = 1 ∧
+    (calls_Close.idxOf "context.WithTimeout") < (calls_Close.idxOf "g.sendPacket") := by decide
+
 end Lnc.Inst.C12
